@@ -56,8 +56,9 @@ def s_link(draw, min_slots=2, max_slots=200, kinds=("random", "random", "prbs7",
             "pdmode": draw(st.sampled_from(["ase-only", "thermal-only"])), "drive_bias_in_dac": draw(st.booleans())}
 
 
-def run_link(c, slots):
-    """slots: 0/1 array of transmitted slot values; returns the PD output (electrical_signal)"""
+def run_link(c, slots, carrier=None, pol=None, keep=None):
+    """slots: 0/1 array of transmitted slot values; returns the PD output (electrical_signal).
+    `carrier`: re-use this CW carrier object (a second transmission from the same laser); `keep`: dict receiving the carrier used."""
     sps, R = c["sps"], c["R"]
     gv(sps=sps, R=R)
     fs = R * sps
@@ -71,15 +72,18 @@ def run_link(c, slots):
         mz_bias = -Vpi
     N = len(v)
     t = np.arange(N) / fs
-    cw = lib(D.LASER, t, c["p_dbm"])
-    if c["npol"] == 2:
+    pol = pol or c["pol"]
+    cw = carrier if carrier is not None else lib(D.LASER, t, c["p_dbm"])
+    if carrier is None and c["npol"] == 2:
         z = np.zeros(N, dtype=complex)
         if c["both_rows"]:
             rows = np.array([cw.signal, cw.signal])
         else:
             rows = np.array([cw.signal, z]) if c["pol"] == "x" else np.array([z, cw.signal])
         cw = optical_signal(rows, n_pol=2)
-    m = lib(D.MZM, cw, v, mz_bias, Vpi, c["loss"], c["ER"], c["pol"])
+    if keep is not None:
+        keep["cw"] = cw
+    m = lib(D.MZM, cw, v, mz_bias, Vpi, c["loss"], c["ER"], pol)
     Tslot_ps = 1e12 / R
     b2L = c["disp"] * 0.01 * Tslot_ps ** 2           # ps^2
     if c["elem"] == "dm":
@@ -104,11 +108,25 @@ def transitions(b):
 def e_manual(c):
     reset()
     bits = pattern(c["kind"], c["n"], c["seed"], c["p1"])
-    y = run_link(c, bits)
+    keep = {}
+    y = run_link(c, bits, keep=keep)
     s = lib(D.SAMPLER, y, c["sps"] // 2)
     v = (s.signal + (s.noise if s.noise is not None else 0)).real
     thr = (v.max() + v.min()) / 2
     rx = (v > thr).astype(int)
+    reuse = "-"
+    if c["npol"] == 2 and c["both_rows"]:
+        # a second transmission from the SAME carrier object on the other polarisation (the first one must not have consumed it)
+        bits2 = bits[::-1].copy()
+        y2 = run_link(c, bits2, carrier=keep["cw"], pol=("y" if c["pol"] == "x" else "x"))
+        v2 = lib(D.SAMPLER, y2, c["sps"] // 2).signal.real
+        if v2.max() > v2.min():
+            rx2_ = (v2 > (v2.max() + v2.min()) / 2).astype(int)
+        else:
+            rx2_ = np.full(len(bits2), -1)
+        check(np.array_equal(rx2_, bits2), "second-transmission-from-the-same-carrier-fails", f"{int(np.sum(rx2_ != bits2))} errors of {len(bits2)} on pol "
+              f"{'y' if c['pol'] == 'x' else 'x'} after a transmission on pol {c['pol']} (levels {v2.min():.3g}..{v2.max():.3g} V)")
+        reuse = "carrier-reused"
     margin = float(np.min(np.abs(v - thr)) / ((v.max() - v.min()) / 2))
     check(np.array_equal(rx, bits), "decided-bits!=transmitted", f"{int(np.sum(rx != bits))} errors of {len(bits)} (first at {int(np.argmax(rx != bits))}); sps={c['sps']} "
           f"shape={c['shape']} elem={c['elem']} bw={c['bw']:.2f} ER={c['ER']:.1f}")
@@ -118,7 +136,7 @@ def e_manual(c):
     check(float(lib(OOK.BER_analizer, "counter", Tx=binary_sequence(bits), Rx=rx2)) == 0.0, "ber-counter!=0", "")
     nt = transitions(bits) >= 3 and (c["sps"] % 2 == 1 or c["npol"] == 2 or c["elem"] != "none" or c["shape"] == "gaussian" or c["ER"] < 15)
     return {"nontrivial": bool(nt), "classes": [c["kind"], c["shape"], c["elem"], f"pol{c['npol']}{c['pol']}", "odd-sps" if c["sps"] % 2 else "even-sps",
-                                                 "margin<0.5" if margin < 0.5 else "margin>=0.5", c["pdmode"]]}
+                                                 "margin<0.5" if margin < 0.5 else "margin>=0.5", c["pdmode"], reuse]}
 
 
 def e_ook(c):
